@@ -158,3 +158,12 @@ def structured(rng):
     out.append([i for i in range(5)])                                  # all pits
     out.append([0, 0, -1, 1, -1, 3, 6, 6])                             # nodata islands, two basins
     return out
+
+
+def rshape(rng, lo, hi, narrow=0.2):
+    """a raster shape: both sides in lo..hi, or (with probability `narrow`) one side only 1 or 2 cells wide -- many index
+    shortcuts (a step of +-1 is east / west, the offsets -ncol+1 and -1 differ) hold only for three or more columns"""
+    if rng.random() < narrow:
+        a, b = rng.randint(1, 2), rng.randint(max(2, lo), hi + 3)
+        return (a, b) if rng.random() < 0.5 else (b, a)
+    return rng.randint(lo, hi), rng.randint(lo, hi)
